@@ -1023,8 +1023,14 @@ func checkDB3Damaged(h DB3Damaged, st *stats.Collector) error {
 		return append(in, b...)
 	}
 	ref := worker().Call(isolate.Req{Entry: entryDB3, Opts: 1, Input: frame(raw)}, 60*time.Second, 600*time.Second)
-	if ref.Text != "" || ref.Died || ref.Hang || ref.Progress != uint32(1+h.NMsgs) {
-		return pk.Failf("harness", "the intact %d-message database does not convert to %d messages: %+v", h.NMsgs, h.NMsgs, ref)
+	if err := judge(fmt.Sprintf("DB3ToMCAP on an intact %d-message database", h.NMsgs), ref); err != nil {
+		return err
+	}
+	if ref.Text != "" {
+		return pk.Failf("convert-error", "DB3ToMCAP rejected a valid %d-message database: %s", h.NMsgs, ref.Text)
+	}
+	if ref.Progress != uint32(1+h.NMsgs) {
+		return pk.Failf("messages", "DB3ToMCAP converted an intact %d-message database into an MCAP holding %d messages", h.NMsgs, int(ref.Progress)-1)
 	}
 	pages := len(raw) / 4096
 	if pages < 3 {
